@@ -18,6 +18,7 @@ ROOT = os.path.dirname(os.path.dirname(os.path.abspath(__file__)))
 REPO = os.environ.get("VERIF_REPO", "/repo")
 TARGET = os.environ.get("VERIF_TARGET") or os.path.join(ROOT, "target")
 OUT = os.environ.get("VERIF_OUT") or ROOT   # evidence/ and replays/ live here (scratch dir when evaluating seeded changes)
+DRIVER_MEM_MB = int(os.environ.get("VERIF_DRIVER_MEM_MB", "6144"))
 NWORKERS = int(os.environ.get("VERIF_WORKERS", "16"))
 FIXED_ENV = {"JAWK_VF_A": "alpha", "JAWK_VF_E": "", "JAWK_VF_U": "\u00fc\u00f1\u00ed"}
 
@@ -331,8 +332,16 @@ class Driver:
         env.update(FIXED_ENV)
         env.pop("JAWK_VF_MISSING", None)
         err = open(self.stderr_path, "ab") if self.stderr_path else subprocess.DEVNULL
+        limit = None
+        if not self.wrapper and not self.cmd and "ASAN_OPTIONS" not in env:
+            # an address-space cap for the plain driver: an expression or input that makes jawk allocate without bound must
+            # end as an allocation failure (abort, attributed to the case in flight), not take the machine down
+            def limit():
+                import resource
+                cap = DRIVER_MEM_MB * 1024 * 1024
+                resource.setrlimit(resource.RLIMIT_AS, (cap, cap))
         self.proc = subprocess.Popen(self.cmd or (self.wrapper + [self.path, "serve"]), stdin=subprocess.PIPE,
-                                     stdout=subprocess.PIPE, stderr=err, env=env, cwd=self.cwd)
+                                     stdout=subprocess.PIPE, stderr=err, env=env, cwd=self.cwd, preexec_fn=limit)
         if self.stderr_path:
             err.close()
 
